@@ -17,7 +17,7 @@ ASSUMPTIONS = ['when subgraphs share a constant buffer, the merged model may rai
 
 
 def plan(tier):
-  return {'n_cases': 420 if tier == 'quick' else 8000, 'shards': 16}
+  return {'n_cases': 420 if tier == 'quick' else 24000, 'shards': 16}
 
 
 def equal_structure_model(rng, n_sub):
